@@ -123,7 +123,7 @@ theorem flatMap8_length : ∀ bs : List Nat, (bs.flatMap (bitsOf 8)).length = 8 
     omega
 
 set_option maxRecDepth 4000 in
-theorem bits_group4 (s0 s1 s2 s3 : Nat) (h0 : s0 < 64) (h1 : s1 < 64) (h2 : s2 < 64) (h3 : s3 < 64) :
+theorem bits_group4 (s0 s1 s2 s3 : Nat) (_h0 : s0 < 64) (h1 : s1 < 64) (h2 : s2 < 64) (h3 : s3 < 64) :
     bitsOf 6 s0 ++ (bitsOf 6 s1 ++ (bitsOf 6 s2 ++ bitsOf 6 s3)) =
       bitsOf 8 (s0 * 4 + s1 / 16) ++ (bitsOf 8 ((s1 % 16) * 16 + s2 / 4) ++
         bitsOf 8 ((s2 % 4) * 64 + s3)) := by
@@ -132,18 +132,315 @@ theorem bits_group4 (s0 s1 s2 s3 : Nat) (h0 : s0 < 64) (h1 : s1 < 64) (h2 : s2 <
   refine ⟨?_, ?_, ?_, ?_, ?_, ?_, ?_, ?_, ?_, ?_, ?_, ?_, ?_, ?_, ?_, ?_, ?_, ?_, ?_, ?_, ?_, ?_, ?_, ?_⟩ <;> omega
 
 set_option maxRecDepth 4000 in
-theorem bits_group3 (s0 s1 s2 : Nat) (h0 : s0 < 64) (h1 : s1 < 64) (h2 : s2 < 64) :
+theorem bits_group3 (s0 s1 s2 : Nat) (_h0 : s0 < 64) (h1 : s1 < 64) (h2 : s2 < 64) :
     bitsOf 6 s0 ++ (bitsOf 6 s1 ++ bitsOf 6 s2) =
       bitsOf 8 (s0 * 4 + s1 / 16) ++ (bitsOf 8 ((s1 % 16) * 16 + s2 / 4) ++ bitsOf 2 s2) := by
   simp only [bitsOf, Nat.reducePow, List.cons_append, List.nil_append, List.cons.injEq,
     decide_eq_decide, Nat.div_one, and_true]
-  refine ⟨?_, ?_, ?_, ?_, ?_, ?_, ?_, ?_, ?_, ?_, ?_, ?_, ?_, ?_, ?_, ?_, ?_, ?_⟩ <;> omega
+  refine ⟨?_, ?_, ?_, ?_, ?_, ?_, ?_, ?_, ?_, ?_, ?_, ?_, ?_, ?_, ?_, ?_⟩ <;> omega
 
 set_option maxRecDepth 4000 in
-theorem bits_group2 (s0 s1 : Nat) (h0 : s0 < 64) (h1 : s1 < 64) :
+theorem bits_group2 (s0 s1 : Nat) (_h0 : s0 < 64) (h1 : s1 < 64) :
     bitsOf 6 s0 ++ bitsOf 6 s1 = bitsOf 8 (s0 * 4 + s1 / 16) ++ bitsOf 4 s1 := by
   simp only [bitsOf, Nat.reducePow, List.cons_append, List.nil_append, List.cons.injEq,
     decide_eq_decide, Nat.div_one, and_true]
-  refine ⟨?_, ?_, ?_, ?_, ?_, ?_, ?_, ?_, ?_, ?_, ?_, ?_⟩ <;> omega
+  refine ⟨?_, ?_, ?_, ?_, ?_, ?_, ?_, ?_⟩ <;> omega
+
+/-- the bits of the sextets are the bits of the decoded bytes plus at most 4 left-over bits -/
+theorem grp_some : ∀ (sx : List Nat) (bs : BytesN), (∀ s ∈ sx, s < 64) → grp sx = some bs →
+    (∀ b ∈ bs, b < 256) ∧
+      ∃ left, left.length ≤ 4 ∧ sx.flatMap (bitsOf 6) = bs.flatMap (bitsOf 8) ++ left
+  | [], bs, _, h => by
+    simp only [grp, Option.some.injEq] at h
+    subst h
+    exact ⟨by simp, [], by simp, by simp⟩
+  | [_], _, _, h => by simp [grp] at h
+  | [s0, s1], bs, hs, h => by
+    simp only [grp, Option.some.injEq] at h
+    subst h
+    have h0 : s0 < 64 := hs s0 (by simp)
+    have h1 : s1 < 64 := hs s1 (by simp)
+    refine ⟨?_, bitsOf 4 s1, by simp [bitsOf_length], ?_⟩
+    · intro b hb
+      simp only [List.mem_cons, List.not_mem_nil, or_false] at hb
+      subst hb; omega
+    · simp only [List.flatMap_cons, List.flatMap_nil, List.append_nil]
+      exact bits_group2 s0 s1 h0 h1
+  | [s0, s1, s2], bs, hs, h => by
+    simp only [grp, Option.some.injEq] at h
+    subst h
+    have h0 : s0 < 64 := hs s0 (by simp)
+    have h1 : s1 < 64 := hs s1 (by simp)
+    have h2 : s2 < 64 := hs s2 (by simp)
+    refine ⟨?_, bitsOf 2 s2, by simp [bitsOf_length], ?_⟩
+    · intro b hb
+      simp only [List.mem_cons, List.not_mem_nil, or_false] at hb
+      rcases hb with rfl | rfl <;> omega
+    · simp only [List.flatMap_cons, List.flatMap_nil, List.append_nil, List.append_assoc]
+      exact bits_group3 s0 s1 s2 h0 h1 h2
+  | s0 :: s1 :: s2 :: s3 :: r, bs, hs, h => by
+    have h0 : s0 < 64 := hs s0 (by simp)
+    have h1 : s1 < 64 := hs s1 (by simp)
+    have h2 : s2 < 64 := hs s2 (by simp)
+    have h3 : s3 < 64 := hs s3 (by simp)
+    cases hr : grp r with
+    | none => simp [grp, hr] at h
+    | some t =>
+      obtain ⟨ihb, left, hl, ihe⟩ := grp_some r t (fun s hm => hs s (by simp [hm])) hr
+      simp [grp, hr] at h
+      subst h
+      refine ⟨?_, left, hl, ?_⟩
+      · intro b hb
+        simp only [List.mem_cons] at hb
+        rcases hb with rfl | rfl | rfl | hb
+        · omega
+        · omega
+        · omega
+        · exact ihb b hb
+      · simp only [List.flatMap_cons, ihe, List.append_assoc]
+        rw [← List.append_assoc (bitsOf 6 s2), ← List.append_assoc (bitsOf 6 s1),
+          ← List.append_assoc (bitsOf 6 s0), bits_group4 s0 s1 s2 s3 h0 h1 h2 h3]
+        simp only [List.append_assoc]
+
+/-! ### values of bit strings -/
+
+theorem foldl_bitsOf : ∀ (n a v : Nat),
+    (bitsOf n v).foldl (fun a b => 2 * a + (if b then 1 else 0)) a = a * 2 ^ n + v % 2 ^ n
+  | 0, a, v => by simp [bitsOf, Nat.mod_one]
+  | n+1, a, v => by
+    simp only [bitsOf, List.foldl_cons]
+    rw [foldl_bitsOf n, Nat.mod_pow_succ, Nat.pow_succ]
+    generalize 2 ^ n = p
+    have hb : (if decide (v / p % 2 = 1) = true then 1 else 0) = v / p % 2 := by
+      rcases Nat.mod_two_eq_zero_or_one (v / p) with h | h <;> simp [h]
+    rw [hb]
+    generalize v / p % 2 = t
+    rw [Nat.add_mul, Nat.mul_comm 2 a, Nat.mul_assoc a 2 p, Nat.mul_comm 2 p, Nat.mul_comm t p]
+    omega
+
+theorem valOfBits_pair (h l : Nat) (hh : h < 256) (hl : l < 256) :
+    valOfBits (bitsOf 8 h ++ bitsOf 8 l) = h * 256 + l := by
+  unfold valOfBits
+  rw [List.foldl_append, foldl_bitsOf, foldl_bitsOf]
+  simp only [Nat.reducePow]
+  omega
+
+/-! ### cutting into 16-bit units -/
+
+/-- big-endian 16-bit units of a byte string (a trailing odd byte is dropped) -/
+def pairs : BytesN → List Nat
+  | h :: l :: r => (h * 256 + l) :: pairs r
+  | _ => []
+
+theorem unitsOf_short (fuel : Nat) (bs : List Bool) (h : bs.length < 16) :
+    unitsOf fuel bs = ([], bs) := by
+  cases fuel <;> simp [unitsOf, h]
+
+theorem unitsOf_step (fuel h l : Nat) (tail : List Bool) (hh : h < 256) (hl : l < 256) :
+    unitsOf (fuel + 1) (bitsOf 8 h ++ (bitsOf 8 l ++ tail)) =
+      ((h * 256 + l) :: (unitsOf fuel tail).1, (unitsOf fuel tail).2) := by
+  have hlen : (bitsOf 8 h ++ bitsOf 8 l).length = 16 := by simp [bitsOf_length]
+  rw [← List.append_assoc]
+  have h1 : ¬ (bitsOf 8 h ++ bitsOf 8 l ++ tail).length < 16 := by
+    rw [List.length_append, hlen]; omega
+  rw [unitsOf, if_neg h1, List.take_left' hlen, List.drop_left' hlen, valOfBits_pair h l hh hl]
+
+theorem unitsOf_rest_length : ∀ (fuel : Nat) (bs : List Bool), bs.length ≤ fuel →
+    (unitsOf fuel bs).2.length = bs.length % 16
+  | 0, bs, h => by
+    have : bs.length = 0 := by omega
+    simp [unitsOf, this]
+  | fuel+1, bs, h => by
+    by_cases hlt : bs.length < 16
+    · rw [unitsOf_short _ _ hlt]; simp only; omega
+    · have ih := unitsOf_rest_length fuel (bs.drop 16) (by simp only [List.length_drop]; omega)
+      rw [unitsOf, if_neg hlt]
+      simp only [List.length_drop] at ih
+      simp only [ih]
+      omega
+
+theorem unitsOf_bytes : ∀ (fuel : Nat) (bs : BytesN) (left : List Bool), (∀ b ∈ bs, b < 256) →
+    left.length < 8 → bs.length ≤ fuel →
+    ∃ rest, unitsOf fuel (bs.flatMap (bitsOf 8) ++ left) = (pairs bs, rest) ∧
+      rest.length = (bs.length % 2) * 8 + left.length
+  | fuel, [], left, _, hl, _ => by
+    refine ⟨left, ?_, by simp⟩
+    simp only [List.flatMap_nil, List.nil_append, pairs]
+    exact unitsOf_short _ _ (by omega)
+  | fuel, [b], left, _, hl, _ => by
+    refine ⟨bitsOf 8 b ++ left, ?_, by simp [bitsOf_length]⟩
+    simp only [List.flatMap_cons, List.flatMap_nil, List.append_nil, pairs]
+    exact unitsOf_short _ _ (by simp only [List.length_append, bitsOf_length]; omega)
+  | 0, _ :: _ :: _, _, _, _, hf => by simp at hf
+  | fuel+1, h :: l :: r, left, hb, hl, hf => by
+    obtain ⟨rest, he, hr⟩ := unitsOf_bytes fuel r left (fun b hm => hb b (by simp [hm])) hl
+      (by simp only [List.length_cons] at hf; omega)
+    refine ⟨rest, ?_, by simp only [List.length_cons]; omega⟩
+    simp only [List.flatMap_cons, List.append_assoc, pairs]
+    rw [unitsOf_step fuel h l _ (hb h (by simp)) (hb l (by simp)), he]
+
+
+/-! ### UTF-16 -/
+
+/-- the final "no printable US-ASCII character" test of `specSeg` -/
+def chk (o : Option (List Nat)) : Option (List Nat) :=
+  o.bind fun cs => if cs.any printable then none else some cs
+
+theorem chk_none : chk none = none := rfl
+
+theorem chk_map_cons (c : Nat) (o : Option (List Nat)) :
+    chk (o.map (c :: ·)) = if printable c then none else (chk o).map (c :: ·) := by
+  cases o with
+  | none => simp [chk]
+  | some cs =>
+    simp only [chk, Option.map_some, Option.bind_some, List.any_cons, Bool.or_eq_true]
+    by_cases hc : printable c = true
+    · simp [hc]
+    · by_cases ha : cs.any printable = true
+      · simp [hc, ha]
+      · simp [hc, ha]
+
+theorem utf16dec_plain (h l : Nat) (r : BytesN)
+    (hns : ¬ (55296 ≤ h * 256 + l ∧ h * 256 + l < 57344)) :
+    utf16dec (h :: l :: r) =
+      if printable (h * 256 + l) then none else (utf16dec r).map ((h * 256 + l) :: ·) := by
+  rw [utf16dec]
+  simp only [hns, if_false]
+
+theorem utf16dec_sur (h l h2 l2 : Nat) (r : BytesN)
+    (hs : 55296 ≤ h * 256 + l ∧ h * 256 + l < 57344) :
+    utf16dec (h :: l :: h2 :: l2 :: r) =
+      if h * 256 + l < 56320 ∧ 56320 ≤ h2 * 256 + l2 ∧ h2 * 256 + l2 < 57344 then
+        (utf16dec r).map (((h * 256 + l - 55296) * 1024 + (h2 * 256 + l2 - 56320) + 65536) :: ·)
+      else none := by
+  rw [utf16dec]
+  simp only [hs, and_self, if_true]
+
+theorem utf16dec_sur_nil (h l : Nat) (hs : 55296 ≤ h * 256 + l ∧ h * 256 + l < 57344) :
+    utf16dec [h, l] = none := by
+  rw [utf16dec]
+  simp only [hs, and_self, if_true]
+
+theorem scalarsOf_plain (u : Nat) (rest : List Nat) (hns : ¬ (55296 ≤ u ∧ u < 57344)) :
+    scalarsOf (u :: rest) = (scalarsOf rest).map (u :: ·) := by
+  rw [scalarsOf]
+  have h1 : ¬ (55296 ≤ u ∧ u ≤ 56319) := by omega
+  have h2 : ¬ (56320 ≤ u ∧ u ≤ 57343) := by omega
+  simp only [h1, h2, if_false]
+
+theorem scalarsOf_sur (u l : Nat) (rest : List Nat) (hs : 55296 ≤ u ∧ u < 57344) :
+    scalarsOf (u :: l :: rest) =
+      if u < 56320 ∧ 56320 ≤ l ∧ l < 57344 then
+        (scalarsOf rest).map (((u - 55296) * 1024 + (l - 56320) + 65536) :: ·)
+      else none := by
+  rw [scalarsOf]
+  by_cases hh : u < 56320
+  · have h1 : 55296 ≤ u ∧ u ≤ 56319 := by omega
+    simp only [h1, and_self, if_true, hh, true_and]
+    by_cases hl : 56320 ≤ l ∧ l < 57344
+    · have hl' : 56320 ≤ l ∧ l ≤ 57343 := by omega
+      have he : 65536 + (u - 55296) * 1024 + (l - 56320) = (u - 55296) * 1024 + (l - 56320) + 65536 := by
+        omega
+      simp only [hl, hl', and_self, if_true, he]
+    · have hl' : ¬ (56320 ≤ l ∧ l ≤ 57343) := by omega
+      simp only [hl, hl', if_false]
+  · have h1 : ¬ (55296 ≤ u ∧ u ≤ 56319) := by omega
+    have h2 : 56320 ≤ u ∧ u ≤ 57343 := by omega
+    simp only [h1, h2, hh, and_self, false_and, if_true, if_false]
+
+theorem scalarsOf_sur_nil (u : Nat) (hs : 55296 ≤ u ∧ u < 57344) : scalarsOf [u] = none := by
+  rw [scalarsOf]
+  by_cases hh : u < 56320
+  · have h1 : 55296 ≤ u ∧ u ≤ 56319 := by omega
+    simp only [h1, and_self, if_true]
+  · have h1 : ¬ (55296 ≤ u ∧ u ≤ 56319) := by omega
+    have h2 : 56320 ≤ u ∧ u ≤ 57343 := by omega
+    simp only [h1, h2, and_self, if_true, if_false]
+
+theorem utf16dec_odd : ∀ bs : BytesN, bs.length % 2 = 1 → utf16dec bs = none
+  | [], h => by simp at h
+  | [_], _ => by simp [utf16dec]
+  | [_, _], h => by simp at h
+  | [h, l, x], _ => by
+    by_cases hs : 55296 ≤ h * 256 + l ∧ h * 256 + l < 57344
+    · rw [utf16dec]; simp only [hs, and_self, if_true]
+    · rw [utf16dec_plain h l _ hs]
+      split_ifs
+      · rfl
+      · simp [utf16dec]
+  | h :: l :: h2 :: l2 :: r, hlen => by
+    have hr : r.length % 2 = 1 := by simp only [List.length_cons] at hlen; omega
+    have hr2 : (h2 :: l2 :: r).length % 2 = 1 := by simp only [List.length_cons]; omega
+    by_cases hs : 55296 ≤ h * 256 + l ∧ h * 256 + l < 57344
+    · rw [utf16dec_sur h l h2 l2 r hs, utf16dec_odd r hr]
+      split_ifs <;> rfl
+    · rw [utf16dec_plain h l _ hs, utf16dec_odd _ hr2]
+      split_ifs <;> rfl
+
+theorem utf16dec_even : ∀ bs : BytesN, bs.length % 2 = 0 →
+    utf16dec bs = chk (scalarsOf (pairs bs))
+  | [], _ => by simp [utf16dec, pairs, scalarsOf, chk]
+  | [_], h => by simp at h
+  | [h, l], _ => by
+    by_cases hs : 55296 ≤ h * 256 + l ∧ h * 256 + l < 57344
+    · rw [utf16dec_sur_nil h l hs]
+      simp only [pairs]
+      rw [scalarsOf_sur_nil _ hs, chk_none]
+    · rw [utf16dec_plain h l _ hs]
+      simp only [pairs]
+      rw [scalarsOf_plain _ _ hs, chk_map_cons]
+      simp [utf16dec, scalarsOf, chk]
+  | [_, _, _], h => by simp at h
+  | h :: l :: h2 :: l2 :: r, hlen => by
+    have hr : r.length % 2 = 0 := by simp only [List.length_cons] at hlen; omega
+    have hr2 : (h2 :: l2 :: r).length % 2 = 0 := by simp only [List.length_cons]; omega
+    by_cases hs : 55296 ≤ h * 256 + l ∧ h * 256 + l < 57344
+    · rw [utf16dec_sur h l h2 l2 r hs, utf16dec_even r hr]
+      simp only [pairs]
+      rw [scalarsOf_sur _ _ _ hs]
+      split_ifs
+      · rw [chk_map_cons]
+        have : printable ((h * 256 + l - 55296) * 1024 + (h2 * 256 + l2 - 56320) + 65536) = false := by
+          simp only [printable, Bool.and_eq_false_imp, decide_eq_true_eq, decide_eq_false_iff_not]
+          omega
+        simp only [this, Bool.false_eq_true, if_false]
+      · rfl
+    · rw [utf16dec_plain h l _ hs, utf16dec_even _ hr2]
+      have hp : pairs (h :: l :: h2 :: l2 :: r) = (h * 256 + l) :: pairs (h2 :: l2 :: r) := by
+        simp only [pairs]
+      rw [hp, scalarsOf_plain _ _ hs, chk_map_cons]
+
+theorem scalarsOf_cons_ne (u : Nat) (r cs : List Nat) (h : scalarsOf (u :: r) = some cs) :
+    cs.isEmpty = false := by
+  by_cases hs : 55296 ≤ u ∧ u < 57344
+  · cases r with
+    | nil => rw [scalarsOf_sur_nil u hs] at h; cases h
+    | cons l r =>
+      rw [scalarsOf_sur u l r hs] at h
+      split_ifs at h
+      cases hr : scalarsOf r with
+      | none => rw [hr] at h; cases h
+      | some t => rw [hr] at h; simp at h; subst h; rfl
+  · rw [scalarsOf_plain u r hs] at h
+    cases hr : scalarsOf r with
+    | none => rw [hr] at h; cases h
+    | some t => rw [hr] at h; simp at h; subst h; rfl
+
+/-- the "at least one unit" tests of the two sides agree -/
+theorem empty_tests (us : List Nat) :
+    (if us.isEmpty then none else chk (scalarsOf us)) =
+      (chk (scalarsOf us)).bind (fun cs => if cs.isEmpty then none else some cs) := by
+  cases us with
+  | nil => simp [scalarsOf, chk]
+  | cons u r =>
+    simp only [List.isEmpty_cons, Bool.false_eq_true, if_false]
+    cases hsc : scalarsOf (u :: r) with
+    | none => simp [chk]
+    | some cs =>
+      have hne := scalarsOf_cons_ne u r cs hsc
+      simp only [chk, Option.bind_some]
+      split_ifs
+      · rfl
+      · simp [hne]
 
 end GoImap.Utf7Lemmas
